@@ -16,6 +16,10 @@ CLAIMED = {
              note="Trusted: as C01; unknowns outside a slice are held at the rationals in checks/c01.py:ANCHOR; composition of invariant kernels is invariant (not re-derived); one open known finding (subtree selection) listed in known_findings.json."),
  "C09": dict(ref="§3 C09", cat="exploration", tech="exhaustive bounded exploration of the real permutation sampler under an enumerating RNG with exact rational probabilities (the solver-based engine with no symbolic numeric input: all queries ground)", text="No numeric input exists, so the engine degenerates to exhaustive bounded exploration with exact arithmetic: for every forest on <= 4 (quick) / 5 (thorough) data points incl. outlier subsets, the set of orders produced over all shuffle outcomes == brute-force linear extensions, each has probability exactly 1/#orders, and exp(-log_pdf) == #orders exactly.",
              note="Trusted: lgamma exact at integers (stub); brute-force enumeration of compatible orders as oracle; n > 5 outside."),
+ "C06": dict(ref="§3 C06", text="Bounded exhaustive exploration of edit histories (choice points over the samplers' edit grammar, <= 3 edits from start forests on 1-2 points, <= 2 from 3 points; thorough one more) executed on the real Tree with symbolic data; after each history every still-reachable tree is compared with a from-scratch rebuild of the independently tracked abstract forest: z3 decides equality of every node's log_p/log_r entry and of both joint densities for all positive data and alpha.",
+             note="Trusted: the abstract edit model in vsym/edits.py; engine stubs; real arithmetic (rounding drift of repeated add/remove outside); the virtual root's vector of a clone-less tree is not compared (no single fresh value exists: Tree() leaves zeros, update()/from_dict write the prior; nothing reads it)."),
+ "C07": dict(ref="§3 C07", cat="exploration", tech="bounded exhaustive exploration of edit histories and of sampler runs under an enumerating RNG on the real code with symbolic data; z3 decides which data-dependent (ESS) branches exist; the structural invariant itself is a ground assertion on every resulting tree", text="Ground structural invariant (one parent, reachability, name<->index bijection, _data <-> payload agreement, partition of the data set) asserted on every live tree of every edit history (C06 grammar, one edit deeper) and on the result of every path of burn-in SMC, particle Gibbs, subtree PG (three proposals, run wiring), data-point and prune-regraft moves from every start tree (n <= 2 quick, 3 thorough), outliers off/on.",
+             note="The invariant has no numeric input, so the solver's part is limited to path feasibility; coverage is the bounded-exhaustive set of histories and random outcomes."),
 }
 NA = {
  "C17": "all logic is inside pandas (read_table, groupby/transform, sort_values, .at): symbolic tables cannot cross into it and an SMT model of those calls would verify the model, not the code; the one pure-Python rule (major < minor raises) is covered under C05",
